@@ -282,6 +282,8 @@ def c20_jobs(tier):
     jobs.append(job(MSG, "HEncodePure", [1600, 40, 37, 0], wall_ms=600000))
     for meth, mask in ((1, 0), (2, 0), (3, 0), (254, 0), (50, 0), (50, 1 | 4 | 32)):
         jobs.append(job(EAP, "HEapEncodePureAnyCode", [meth, mask]))
+    for meth, mask in ((1, 0), (2, 0), (3, 0), (254, 0), (50, 1 | 2), (50, 4 | 8), (50, 16 | 32), (50, 64), (50, 64 | 4)):
+        jobs.append(job(EAP, "HEapDecodeOwnsData", [meth, mask]))
     # a decoded EAP-AKA' packet extended through the API: same octets under every map order
     for r, a1, a2 in ((0, 2, 4), (3, 6, 1), (5, 4, 2)):
         jobs.append(job(EAP, "HMarshalDeterministicDecoded", [r, a1, a2], map_orders=True))
